@@ -14,6 +14,9 @@ CHECKS = {
     "C05": dict(level="exploration", technique="deterministic simulation (seeded clock-configuration search, exact-time oracle)",
                 text="seeded search over (start instant, step, output step, requested durations, number of calls) with the real Scenario run end to end under the simulator; exact integer-time oracle; sampled, not exhaustive",
                 note="trusts python datetime/integer arithmetic as the calendar; synthetic EOP rows outside 2014-2022; two-body truth only"),
+    "C07": dict(level="exploration", technique="deterministic simulation (run-time invariants at Decision/Reward endpoints of real runs, brute-force assignment oracle, relabelled twin runs)",
+                text="every Decision.calculate / Reward.calculate / normalisation call of generated runs (all policies, all reward classes, membership changes, priorities) is judged by brute force over all complete assignments (<= 5x4) and reference formulas; twin runs with permuted agent ids must give the permuted decisions",
+                note="matrix shapes and values are those runs produce; small-scope exhaustive enumeration over arbitrary matrices is outside this technique; ties accepted at 1e-12; relabel twins compared only while the optimum is unique"),
     "C08": dict(level="exploration", technique="deterministic simulation (seeded and per-batch-exhaustive completion-order / execution-order / task-retry exploration; conservation + cross-schedule equality oracles)",
                 text="each generated network case is run under a base schedule and a family of alternative schedules (every permutation of each batch with <= 4 jobs, LIFO, lazy/shuffled execution, random joint orders, task retry); per-run bookkeeping conservation and cross-schedule equality of everything a step produces",
                 note="noise is a function of (run seed, job ordinal); estimates compared at 1e-9 relative; rounding-tie decision flips counted indeterminate; one known finding (F11) keyed on sensors tasked in several jobs"),
